@@ -32,6 +32,7 @@ class Ref:
     def __init__(self, registry: dict, files: dict):
         self.reg = {sp: dict(es) for sp, es in registry["spaces"]}
         self.files = files
+        self.f8_positions = 0     # CWT payloads met (known finding F8: encoded the tool's way, everything else by the book)
 
     # ---- primitives ----------------------------------------------------------------------------------
     def code(self, space, name):
@@ -137,9 +138,29 @@ class Ref:
     def sign1(self, blk):
         s = blk["CoseSign1Tagged"]
         payload = s["payload"]
+        pl = ct.simple(22)
         if payload is not None:
-            raise NotInScope("CWT payload (finding F8)")
-        return ct.tag(18, ct.arr([self.wrap(self.header_map(s["protected"])), self.header_map(s["unprotected"]), ct.simple(22), ct.bstr(self.hexbytes(s["signature"]))]))
+            # known finding F8: RFC 9052 makes the payload `bstr / nil` (a CWT would be `bstr .cbor claims`); the tool emits the claims map bare.
+            # The reference follows the tool *at this one position* (and records it) so that everything else in such a description is still compared.
+            self.f8_positions += 1
+            claims = {"Issuer": (1, "s"), "Subject": (2, "s"), "Audience": (3, "s"), "Expiration Time": (4, "i"), "Not Before": (5, "i"), "Issued At": (6, "i"), "CW ID": (7, "b")}
+            if not isinstance(payload, dict):
+                raise Rejected("CWT payload")
+            ents = []
+            for k, v in payload.items():
+                if k not in claims:
+                    raise Rejected("CWT claim " + str(k))
+                code, t = claims[k]
+                if t == "s":
+                    if not isinstance(v, str):
+                        raise Rejected("CWT claim type")
+                    ents.append((ct.uint(code), ct.tstr(v)))
+                elif t == "i":
+                    ents.append((ct.uint(code), self.integer(v)))
+                else:
+                    ents.append((ct.uint(code), ct.bstr(self.hexbytes(v))))
+            pl = ct.mp(ents)
+        return ct.tag(18, ct.arr([self.wrap(self.header_map(s["protected"])), self.header_map(s["unprotected"]), pl, ct.bstr(self.hexbytes(s["signature"]))]))
 
     def recipient(self, r):
         prot = r["protected"]
